@@ -8,7 +8,7 @@
 (* Many scenarios are concatenated in one file; a line of kind "Init"      *)
 (* starts the next scenario (TraceReset).                                  *)
 (***************************************************************************)
-EXTENDS Props
+EXTENDS AllProps
 
 CONSTANT TraceFile
 VARIABLE l
@@ -22,7 +22,7 @@ HasSt(r) == "st" \in DOMAIN r
 HasDisk(r) == "disk" \in DOMAIN r
 
 EmptyHist(r) == [accepted |-> {}, seen |-> <<>>, cValid |-> FALSE, cBase |-> Zero, cEmission |-> Zero,
-                 cfg |-> r.cfg, unit |-> r.unit, sc |-> r.sc, crashed |-> FALSE, restarts |-> 0, lastFault |-> "", synced |-> FALSE]
+                 cfg |-> r.cfg, unit |-> r.unit, sc |-> r.sc, present |-> {}, cap |-> "10000000000000000000000000000", crashed |-> FALSE, restarts |-> 0, lastFault |-> "", synced |-> FALSE]
 InitHist(r) == IF HasDisk(r) /\ HasSt(r)
                THEN [EmptyHist(r) EXCEPT !.cValid = TRUE, !.cBase = BaseTotal(r.disk), !.cEmission = r.st.emission]
                ELSE EmptyHist(r)
@@ -41,10 +41,11 @@ NextHist(r) ==
    IF r.kind = "DeliverTx" /\ r.panic = ""
    THEN [hist EXCEPT !.accepted = IF r.resp.code = 0 THEN @ \cup {r.tx.hash} ELSE @,
                      !.seen = IF r.tx.hash \in DOMAIN @ THEN @ ELSE @ @@ (r.tx.hash :> r.resp.code)]
-   ELSE IF r.kind \in {"Commit", "Recovered"} /\ r.panic = "" /\ HasDisk(r) /\ HasSt(r)
+   ELSE IF r.kind \in {"Commit", "Recovered", "Jump"} /\ r.panic = "" /\ HasDisk(r) /\ HasSt(r)
    THEN [hist EXCEPT !.cValid = TRUE, !.cBase = BaseTotal(r.disk), !.cEmission = r.st.emission]
    ELSE IF r.kind = "Crash" THEN [hist EXCEPT !.crashed = TRUE, !.cValid = FALSE, !.lastFault = IF "fault" \in DOMAIN r THEN r.fault ELSE "?"]
    ELSE IF r.kind = "Restart" THEN [hist EXCEPT !.restarts = @ + 1]
+   ELSE IF r.kind = "BeginBlock" /\ "begin" \in DOMAIN r THEN [hist EXCEPT !.present = Range(r.begin.present)]
    ELSE IF r.kind = "Restored" THEN [hist EXCEPT !.synced = TRUE, !.cValid = FALSE]
    ELSE hist
 
